@@ -242,6 +242,25 @@ def r3_ordering(ctx):
     loop = [n for n, st in rcfg.stmt.items() if isinstance(st, ast.For) and "groupby" in U(st.iter)]
     ctx.check(len(clean_calls) == 3 and bool(loop) and all(rcfg.dominates(c, loop[0]) for c in clean_calls), "C14.R3", read, read.node, "index, numeric and layout cleaning all precede the loading loop",
               "a cleaning step is skipped on some path before individuals are loaded", construct="cleaning before loading")
+    # row-level value checks run on every row, i.e. before the table is collapsed to one row per individual (`groupby('ID').first()` keeps
+    # the first non-null value and `nunique()` ignores NaN: after the collapse a missing / bad value on some row is no longer visible)
+    for mod_, qual_, needles in ((f"{PKG}.event_dataframe_data_reader", "EventDataframeDataReader._clean_dataframe",
+                                  (("[$0.event_time_name] > 0", "event time <= 0"), ("astype(int)", "non-integer event flag"))),
+                                 (f"{PKG}.covariate_dataframe_data_reader", "CovariateDataframeDataReader._clean_dataframe_covariates",
+                                  (("isna().any()", "missing covariate"), ("astype(int)", "non-integer covariate")))):
+        g_ = ix.func(mod_, qual_, "C14.R3")
+        gcfg = CFG(g_.node)
+        gcn = Canon(g_.node)
+        collapses = [n for n, st in gcfg.stmt.items() if isinstance(st, ast.Assign) and any(isinstance(c, ast.Call) and isinstance(c.func, ast.Attribute) and c.func.attr in ("first", "last", "nth", "head", "tail", "max", "min", "mean", "agg", "aggregate")
+                     and isinstance(c.func.value, ast.Call) and isinstance(c.func.value.func, ast.Attribute) and c.func.value.func.attr == "groupby" for c in ast.walk(st.value))]
+        for needle, what in needles:
+            hs = [h for r in gcfg.nodes(lambda s_: isinstance(s_, ast.Raise)) for h, lab in gcfg.if_guards(r) if lab and needle in gcn.text(gcfg.stmt[h].test)]
+            if not hs:
+                continue  # presence is decided by R2
+            late = [c for c in collapses if any(gcfg.reachable(c, h) and not gcfg.reachable(h, c) for h in hs)]
+            ctx.check(not late, "C14.R3", g_, gcfg.stmt[late[0]] if late else gcfg.stmt[hs[0]], f"`{what}` is checked on every row, before the per-individual collapse",
+                      f"the table is collapsed to one row per individual (`{U(gcfg.stmt[late[0]])[:60] if late else ''}`) before `{what}` is checked: `first()` / `nunique()` skip missing values, so a bad or "
+                      "missing value on some row of an individual is silently accepted", construct=f"row-level check before collapse: {what}")
     ad = ix.func(f"{PKG}.individual_data", "IndividualData.add_observations", "C14.R3")
     al = Canon(ad.node).lines(True, True)
     B_ = "bisect($0.timepoints, ?t)"
